@@ -362,6 +362,9 @@ func vc08Scenario(r *vc08Run, rng *rand.Rand, kind string, ls uint32, nb int, mo
 		switch mode {
 		case "contig": // clocks grow like a DAG: every clock value gets 1..3 refs, pages are filled in order
 			c := next
+			if rng.Intn(4) == 0 && c > 0 { // also older clocks (the clock sequence itself is not advanced then)
+				return uint32(rng.Intn(int(c)))
+			}
 			if rng.Intn(3) > 0 {
 				step := uint32(1)
 				if rng.Intn(4) == 0 {
@@ -371,9 +374,6 @@ func vc08Scenario(r *vc08Run, rng *rand.Rand, kind string, ls uint32, nb int, mo
 			}
 			if next >= maxPages*ls {
 				next = maxPages*ls - 1
-			}
-			if rng.Intn(4) == 0 && c > 0 { // also older clocks
-				return uint32(rng.Intn(int(c)))
 			}
 			return c
 		case "edges":
@@ -405,7 +405,7 @@ func vc08Scenario(r *vc08Run, rng *rand.Rand, kind string, ls uint32, nb int, mo
 		case x < 92:
 			// Load needs all consecutive leaves: only offered when everything is persisted and pages are contiguous,
 			// or (rarely) anyway — the model mirrors the code on gaps as well, the reference fold is skipped then
-			if mode == "contig" {
+			if mode == "contig" && r.contig {
 				r.exec(&vc08Op{Op: "tpersist"}, rng)
 				r.exec(&vc08Op{Op: "tload", Ls: ls}, rng)
 			}
